@@ -193,6 +193,9 @@ func MuxScenarios(thorough bool) []MuxScenario {
 		// caller packets with every value of the header's small fields (scrambling control, transport_error, priority)
 		MuxScenario{Name: "packet-header-values-p2", Period: 2, Setup: setupA,
 			Alpha: []MOp{{K: "pkt", Pkt: "scr1"}, {K: "pkt", Pkt: "scr2"}, {K: "pkt", Pkt: "scr3"}, {K: "pkt", Pkt: "teiprio"}, opDataA1, opTables}, Depth: 3, Dedup: true},
+		// every part of the adaptation field extension on its own (piecewise rate without a legal time window, ...)
+		MuxScenario{Name: "af-extension-parts-p2", Period: 2, Setup: setupA,
+			Alpha: []MOp{{K: "data", PID: 0x100, Len: 250, AF: "extpw"}, {K: "data", PID: 0x100, Len: 10, AF: "extss"}, opDataAltw, {K: "data", PID: 0x100, Len: 400, AF: "ext"}, opDataA1}, Depth: 3, Dedup: true},
 		// one adaptation field struct edited between calls: fields that fit, that leave no room for the PES header, that
 		// cannot fit a packet at all - whatever a call leaves in the struct's length bookkeeping is what the next call finds
 		MuxScenario{Name: "shared-af-struct-p2", Period: 2, Setup: setupA, ShareAF: true,
